@@ -556,6 +556,10 @@ class Spec:
         raise EngineError('spec binop %s on %s' % (op, a.t))
 
     def equal(self, ex, a, b):
+        if isinstance(a.x, Clo) or isinstance(b.x, Clo):
+            c, o = (a, b) if isinstance(a.x, Clo) else (b, a)
+            if not isinstance(o.x, Clo) and z3.is_expr(o.x) and o.x.eq(FN_NIL):
+                return z3.BoolVal(False)      # a function literal is never nil
         if isinstance(a.x, list) and isinstance(b.x, list):
             return z3.And(*[self.equal(ex, p, q) for p, q in zip(a.x, b.x)]) if a.x else z3.BoolVal(True)
         if isinstance(a.x, list):
@@ -738,6 +742,49 @@ class Spec:
             if len(tk) != 1:
                 return V('bool', z3.BoolVal(False))
             return V('bool', z3.And(tk[0][1] == d.x, z3.BoolVal(True)))
+        if fn == 'monitorOK':
+            # every store of 0 to the resize flag happens with a mutex held and is followed by Broadcast before that
+            # mutex is released (no lost wake-up)
+            ok = True
+            tr = st.trace
+            for i, t in enumerate(tr):
+                if t[0] == 'access' and t[1] == 'atomic-store' and t[5] and t[5][1] == 'resizing':
+                    heldm = [h for h in t[4] if h[1] == 'mutex']
+                    if not heldm:
+                        ok = False
+                        continue
+                    nb = next((j for j in range(i + 1, len(tr)) if tr[j][0] == 'broadcast'), None)
+                    nr = next((j for j in range(i + 1, len(tr)) if tr[j][0] == 'release'), None)
+                    if nb is None or nr is None or nb > nr:
+                        ok = False
+            return V('bool', z3.BoolVal(ok))
+        if fn == 'validated':
+            return V('bool', self.validated_goal(ex, st))
+        if fn == 'ncb':
+            f = ev(args[0])
+            ft = ex.term(f)
+            return LIT(len([t for t in st.trace if t[0] == 'cb' and t[1] is not None and t[1].eq(ft)]))
+        if fn == 'nacquire':
+            return LIT(len([t for t in st.trace if t[0] == 'acquire']))
+        if fn == 'nblocking':
+            return LIT(len([t for t in st.trace if t[0] in ('blocking', 'condwait')]))
+        if fn == 'nheld':
+            return LIT(len(getattr(st, 'held', ())))
+        if fn == 'holds':
+            pv = ev(args[0])
+            lid = ex.lock_id(pv.x)
+            return V('bool', z3.BoolVal(any(h.eq(lid) for (h, kd) in getattr(st, 'held', ()))))
+        if fn == 'lastret':
+            want = args[0][1]
+            j = ev(args[1]).x
+            rets = [t for t in st.trace if t[0] == 'ret' and self.prog.short(t[1]).endswith(want)]
+            if not rets:
+                return V('bool', ex.fresh('noret', BoolS))
+            return rets[-1][2][j]
+        if fn == 'deref':
+            pv = ev(args[0])
+            tt = self.prog.under(pv.t)[1]
+            return ex.load(st, tt['elem'], pv.x)
         if fn == 'ncall':
             want = args[0][1]
             return LIT(len([t for t in st.trace if t[0] == 'call' and self.prog.short(t[1]).endswith(want)]))
@@ -760,6 +807,13 @@ class Spec:
             o = ev(args[0])
             g = st.ghost.setdefault('$inv', z3.Const('g0_inv', z3.ArraySort(Addr, BoolS)))
             return V('bool', z3.Select(g, ex.term(o)))
+        if fn == 'apply':
+            f = ev(args[0])
+            vals = [ev(a) for a in args[1:]]
+            sig = self.prog.under(f.t)[1]
+            rts = sig.get('results') or []
+            uf = z3.Function('apply_' + mangle(self.prog.under(f.t)[0]), Fn, *[ex.term(a).sort() for a in vals], ex.ts.sort(rts[0]))
+            return V(rts[0], uf(ex.term(f), *[ex.term(a) for a in vals]))
         if fn == 'as':
             x = ev(args[0])
             t = self.resolve_type(ex, self.typearg(args[1]))
@@ -877,12 +931,16 @@ class Spec:
         env = self.bind_params(ex, f, args)
         callee = self.prog.short(name)
         site = 'L' + ex.line(ins)
+        same_pkg = (self.prog.funcs.get(ex.cur_fn) or {}).get('pkg') == con.pkg if ex.cur_fn in self.prog.funcs else False
         for c in con.of('requires'):
+            if c.extra.get('private') and not same_pkg:
+                continue
             g = self.eval_bool(ex, c.expr, env, st, st)
             ex.oblige(st, '%s/%s/pre.%s.%s@%s' % (ex.tagstr(c), ex.short_fn(), callee, c.label or 'r%d' % c.ordinal, site), g,
                       tags=c.tags, where='%s:%d' % (c.file, c.line), kind='pre')
             st.pc.append(g)
         self.on_contract_call(ex, fr, ins, con, name, args, st)
+        self.call_effects(ex, fr, ins, con, name, env, st)
         old = st.copy()
         sig = self.prog.under(f['sig'])[1]
         rts = sig.get('results') or []
@@ -904,6 +962,7 @@ class Spec:
                 st2.actions = list(getattr(st2, 'actions', [])) + [(pa[0], pa[1], dict(st2.ghost), pa[2])]
                 st2.pending_action = None
                 self.on_action(ex, st2, pa, env)
+            st2.trace.append(('ret', name, list(results)))
             if len(results) == 0:
                 k(st2, None)
             elif len(results) == 1:
@@ -936,6 +995,12 @@ class Spec:
                 return self.calls_caller(ex, fr, ins, c, env2, st2, old, lambda s, e: step(i + 1, s, e, havocked))
             if c.kind == 'iterates':
                 return self.iterates_caller(ex, fr, ins, con, c, env2, st2, old, lambda s, e: step(i + 1, s, e, True))
+            if c.kind == 'ensures' and c.extra.get('private') and not same_pkg:
+                return step(i + 1, st2, env2, havocked)
+            if c.kind == 'ensures' and self.mentions_trace(c.expr):
+                # a fact about the callee's own execution trace (effects, invocation counts): proved for the callee,
+                # nothing to assume at the call site
+                return step(i + 1, st2, env2, havocked)
             if c.kind == 'ensures':
                 if not havocked:
                     self.havoc_all(ex, con, env2, st2, old)
@@ -970,6 +1035,27 @@ class Spec:
             return
         self.reentrant_havoc(ex, st, pure, recv=recv)
 
+    def call_effects(self, ex, fr, ins, con, name, env, st):
+        """`effect` clauses of the callee: acquires p / releases p (lock set), nolocks (caller must hold no internal lock:
+        the callee may block or take locks itself), blocking (the callee may wait for other goroutines)."""
+        callee = self.prog.short(name)
+        for c in con.of('effect'):
+            words = c.extra['arg'].split()
+            if not words:
+                continue
+            if words[0] == 'acquires':
+                pv = self.eval(ex, specparse.parse_expr(' '.join(words[1:])), env, st, st)
+                ex.acquire(st, pv.x, ins)
+            elif words[0] == 'releases':
+                pv = self.eval(ex, specparse.parse_expr(' '.join(words[1:])), env, st, st)
+                ex.release(st, pv.x, ins)
+            if 'nolocks' in words or 'blocking' in words:
+                held = getattr(st, 'held', ())
+                ex.oblige(st, 'C13/%s/call.%s.no-lock-held@L%s' % (ex.short_fn(), callee, ex.line(ins)), z3.BoolVal(len(held) == 0),
+                          tags=['C13'], kind='discipline')
+            if 'blocking' in words:
+                st.trace.append(('blocking', name, ex.line(ins)))
+
     def is_shared_call(self, name):
         return name.startswith('(*' + IR.XPKG + '.Map') and '$' not in name
 
@@ -989,6 +1075,26 @@ class Spec:
                     st.pc.append(self.eval_bool(ex, c.expr, ex.cur_env, st, st))
                 except EngineError:
                     pass
+
+    TRACE_FNS = {'nacquire', 'nblocking', 'nheld', 'holds', 'ncb', 'ncall', 'lastret', 'validated', 'monitorOK', 'itercalls',
+                 'iterselect', 'selectchan', 'tickerchan', 'spawnedbefore', 'spawnfn', 'finalizer', 'closed'}
+
+    def mentions_trace(self, e):
+        if not isinstance(e, tuple):
+            return False
+        if e[0] == 'call' and e[1] in self.TRACE_FNS:
+            return True
+        if e[0] == 'call' and e[1] in self.sf.defines:
+            if self.mentions_trace(self.sf.defines[e[1]][1]):
+                return True
+        for x in e[1:]:
+            if isinstance(x, tuple) and self.mentions_trace(x):
+                return True
+            if isinstance(x, list):
+                for y in x:
+                    if isinstance(y, tuple) and self.mentions_trace(y):
+                        return True
+        return False
 
     def on_contract_call(self, ex, fr, ins, con, name, args, st):
         st.trace.append(('call', name, [a for a in args], ex.line(ins)))
@@ -1013,8 +1119,71 @@ class Spec:
             ex.oblige(st, '%s/%s/step.%s.%s@L%s' % (ex.tagstr(cl), ex.short_fn(), callee, cl.label or 's%d' % cl.ordinal, line), g,
                       tags=cl.tags, where='%s:%d' % (cl.file, cl.line), kind='step')
 
-    def access_discipline(self, ex, st, kind, p, ins):
-        pass
+    # ---- access discipline (C14) -------------------------------------------------------------------------------
+    ATOMIC_ONLY = {('Map', 'table'), ('Map', 'resizing'), ('Map', 'totalGrowths'), ('Map', 'totalShrinks'),
+                   ('MapOf', 'table'), ('MapOf', 'resizing'), ('MapOf', 'totalGrowths'), ('MapOf', 'totalShrinks')}
+    BUCKET_WORDS = {('bucket', 'next'), ('bucket', 'keys'), ('bucket', 'values'), ('bucket', 'topHashMutex'),
+                    ('bucketOf', 'meta'), ('bucketOf', 'entries'), ('bucketOf', 'next')}
+    COUNTER = {('counterStripe', 'c')}
+
+    def access_discipline(self, ex, st, kind, p, ins, info, fr):
+        """Every access to a shared location class gets an obligation (decided per path):
+        table/flag words: atomic only; bucket words of a published table: atomic load anywhere, plain load only under
+        the bucket lock, stores atomic and under the lock; objects allocated by this call and not yet published, and
+        tables that the function's contract declares unpublished (`effect builder`), may be accessed plainly."""
+        if info is None:
+            return
+        key = (info[0], info[1])
+        if key not in self.ATOMIC_ONLY and key not in self.BUCKET_WORDS and key not in self.COUNTER:
+            return
+        fresh = p.cid is not None and p.cid < 0
+        con = ex.cur_contract
+        builder = con is not None and any('builder' in c.extra.get('arg', '') for c in con.of('effect'))
+        held = len(getattr(st, 'held', ())) > 0
+        atomic = kind.startswith('atomic')
+        ok = True
+        rule = ''
+        if key in self.ATOMIC_ONLY:
+            rule = 'atomic-only'
+            ok = atomic or fresh
+        elif key in self.BUCKET_WORDS:
+            if kind == 'plain-load':
+                rule = 'plain-load-needs-lock'
+                ok = held or fresh or builder
+            elif kind == 'plain-store':
+                rule = 'plain-store-unpublished-only'
+                ok = fresh or builder
+            elif kind in ('atomic-store', 'atomic-rmw'):
+                rule = 'store-needs-lock'
+                ok = held or fresh or builder or info[1] == 'topHashMutex'
+            else:
+                return
+        elif key in self.COUNTER:
+            rule = 'counter-atomic'
+            ok = atomic or fresh or builder
+        ex.oblige(st, 'C14/%s/access.%s.%s.%s@L%s' % (ex.short_fn(), info[0], info[1], rule, ex.line(ins)), z3.BoolVal(bool(ok)),
+                  tags=['C14'], kind='discipline')
+        if key in self.BUCKET_WORDS and kind in ('atomic-store', 'atomic-rmw') and not fresh and not builder \
+                and info[1] not in ('topHashMutex',) or (key in self.BUCKET_WORDS and kind == 'atomic-store' and info[1] == 'topHashMutex'
+                                                         and not fresh and not builder and ex.short_fn().endswith('doCompute')):
+            # validation discipline (C03/C04): a writer may store into a published bucket only after it has, with the
+            # bucket lock held, seen no resize in progress and then seen that its table is still the current one
+            ex.oblige(st, 'C03/%s/store.validated.%s.%s@L%s' % (ex.short_fn(), info[0], info[1], ex.line(ins)), self.validated_goal(ex, st),
+                      tags=['C03', 'C04', 'C02'], kind='discipline')
+
+    def validated_goal(self, ex, st):
+        tr = st.trace
+        last_acq = max([i for i, t in enumerate(tr) if t[0] == 'acquire'] + [-1])
+        if last_acq < 0 or not getattr(st, 'held', ()):
+            return z3.BoolVal(False)
+        r1 = next((i for i in range(last_acq + 1, len(tr)) if tr[i][0] == 'ret' and tr[i][1].endswith('.resizeInProgress')), None)
+        if r1 is None:
+            return z3.BoolVal(False)
+        r2 = next((i for i in range(r1 + 1, len(tr)) if tr[i][0] == 'ret' and tr[i][1].endswith('.newerTableExists')), None)
+        if r2 is None:
+            return z3.BoolVal(False)
+        return z3.And(z3.Not(tr[r1][2][0].x), z3.Not(tr[r2][2][0].x))
+
 
     def havoc_all(self, ex, con, env, st, old):
         for c in con.of('modifies'):
@@ -1068,6 +1237,13 @@ class Spec:
 
     def lvalue(self, ex, e, env, st):
         """Address and type of a Go lvalue expression x.f.g or *p"""
+        if e[0] == 'call' and e[1] == 'deref':
+            pv = self.eval(ex, e[2][0], env, st, st)
+            tt = self.prog.under(pv.t)[1]
+            return pv.x, tt['elem']
+        pl = self.place(ex, e, env, st, st)
+        if pl is not None:
+            return pl
         if e[0] == 'field':
             base = self.eval(ex, e[1], env, st, st) if e[1][0] != 'field' else None
             if base is None:
